@@ -87,6 +87,23 @@ def extras(tier, seed):
                        descs=descs, srcs=src, loads=[])
             if fixed:
                 A, B, C, f, lam, r = keep
+    # --- a tapered wire against the same wire written as single-segment wires on the taper's segment boundaries
+    import mininec.mininec as mm
+    for env in ('free', 'ideal'):
+        for ttype, nt in ((3, 6), (1, 5), (2, 5), (3, 7)):
+            G = np.array([0.02, 0.03, 0.0 if env == 'ideal' else 0.05]) * lam
+            # over ground the tapered wire is vertical: the matrix-fill shortcuts are switched off for sloping grounded pulses
+            T1 = G + (np.array([0.03, 0.02, 0.22]) if env == 'free' else np.array([0., 0., 0.22])) * lam
+            T2 = T1 + np.array([0.10, 0.06, 0.03]) * lam
+            wt = mm.Wire(nt, *G, *T1, r)
+            wt.segtype = ttype
+            mm.Mininec(f, [wt])
+            pieces = [geom.wire(sg.p1, sg.p2, 1, r) for sg in wt.segments]
+            tail = geom.wire(T1, T2, 3, r)
+            descs = [[geom.wire(G, T1, nt, r, taper=[ttype]), tail], pieces + [tail], [tail] + pieces,
+                     [geom.wire(sg.p2, sg.p1, 1, r) for sg in wt.segments][::-1] + [tail]]
+            yield dict(extra='taper%d-split-%s-n%d' % (ttype, env, nt), env=env, f=f, lam=lam, descs=descs,
+                       srcs=[dict(at=list(T1 + (T2 - T1) / 3), dir=list(T2 - T1), v=[1.0, 0.0])], loads=[])
     # --- arc (in its own x-z plane, centre at the origin) + straight tail at either arc end
     R = 0.06 * lam
     for (a1, a2) in ((0., 120.), (30., -100.)):
